@@ -1,0 +1,71 @@
+// Copyright 2026 Blink Labs Software
+//
+// Licensed under the Apache License, Version 2.0 (the "License");
+// you may not use this file except in compliance with the License.
+// You may obtain a copy of the License at
+//
+//     http://www.apache.org/licenses/LICENSE-2.0
+//
+// Unless required by applicable law or agreed to in writing, software
+// distributed under the License is distributed on an "AS IS" BASIS,
+// WITHOUT WARRANTIES OR CONDITIONS OF ANY KIND, either express or implied.
+// See the License for the specific language governing permissions and
+// limitations under the License.
+
+package pipeline
+
+import (
+	"context"
+	"errors"
+	"testing"
+	"time"
+
+	"github.com/blinklabs-io/gouroboros/internal/testdata"
+	"github.com/blinklabs-io/gouroboros/ledger"
+	pcommon "github.com/blinklabs-io/gouroboros/protocol/common"
+	"github.com/stretchr/testify/require"
+)
+
+// WaitForDrain must not report an empty pipeline while a block is held by a
+// worker (here: the validate worker) with every channel empty.
+func TestBlockPipeline_WaitForDrainCountsItemsHeldByWorkers(t *testing.T) {
+	entered := make(chan struct{}, 1)
+	release := make(chan struct{})
+	p := NewBlockPipeline(
+		WithDecodeWorkers(1),
+		WithValidateWorkers(1),
+		WithSkipBodyHashValidation(true),
+		WithEta0Provider(func(uint64) (string, error) {
+			entered <- struct{}{}
+			<-release
+			return "", errors.New("no nonce")
+		}),
+	)
+	require.NoError(t, p.Start(context.Background()))
+	defer p.Stop() //nolint:errcheck
+	go func() {
+		for range p.Errors() { //nolint:revive
+		}
+	}()
+
+	raw := testdata.MustDecodeHex(testdata.ShelleyBlockHex)
+	require.NoError(t, p.Submit(context.Background(), uint(ledger.BlockTypeShelley), raw, pcommon.Tip{}))
+	<-entered // the validate worker holds the only item; all channels are empty
+
+	require.Equal(t, 1, p.PendingCount())
+	ctx, cancel := context.WithTimeout(context.Background(), 100*time.Millisecond)
+	err := p.WaitForDrain(ctx)
+	cancel()
+	require.ErrorIs(t, err, context.DeadlineExceeded)
+
+	close(release)
+	select {
+	case <-p.Results():
+	case <-time.After(5 * time.Second):
+		t.Fatal("result never arrived")
+	}
+	ctx, cancel = context.WithTimeout(context.Background(), 5*time.Second)
+	defer cancel()
+	require.NoError(t, p.WaitForDrain(ctx))
+	require.Equal(t, 0, p.PendingCount())
+}
